@@ -213,6 +213,62 @@ def one_case(ctx, drv):
         trees.rmtree(root)
 
 
+def same_loader_case(ctx, drv):
+    """verification and lookups first, then an update of a sub-directory and save - all on ONE loader object (what a
+    long-running caller does): reading must not have changed any entry object, so what the save writes for paths outside the
+    updated directory is what was there"""
+    rng = ctx.rng
+    root = common.scratch_dir('gv.c10s.')
+    try:
+        pl = gen_tree.gen_plan(rng, depth=rng.choice([2, 3]), hostile=rng.random() < 0.3, max_files=4)
+        pl.no_conflicts = True
+        gen_tree.layout(pl, rng, p_dup=0.5, p_second=0.0, p_sub=0.5)
+        gen_tree.write_plan(pl, root)
+        dirs = sorted(d for d in pl.dirs if d and os.path.isdir(os.path.join(root, d)) and not gen_tree.is_hidden_path(d)
+                      and not any(d == i or d.startswith(i + '/') for i in pl.ignored))
+        if not dirs:
+            return
+        sub = rng.choice(dirs)
+        # something to do below `sub`, so that Manifests get rewritten
+        open(os.path.join(root, sub, 'added-%d' % rng.randint(0, 9)), 'wb').write(b'new file')
+        hashes = rng.choice(c03.HASHSETS)
+        before = updimpl.snapshot(root)
+        lines_before = manifest_lines(root)
+        reads = []
+        try:
+            with treeimpl.time_limit(20):
+                l = updimpl.make_loader(root, pl.top, {'hashes': hashes})
+                for _ in range(rng.randint(1, 3)):
+                    what = rng.choice(['verify', 'verify', 'entry-dict', 'find'])
+                    reads.append(what)
+                    try:
+                        if what == 'verify':
+                            l.assert_directory_verifies(rng.choice(['', sub]), fail_handler=lambda e: True)
+                        elif what == 'entry-dict':
+                            l.get_file_entry_dict(rng.choice(['', sub]))
+                        else:
+                            l.find_path_entry(rng.choice(sorted(pl.files) or ['x']))
+                    except Exception:
+                        pass
+                l.update_entries_for_directory(sub)
+                l.save_manifests()
+                out = {'ok': True}
+        except Exception as e:
+            out = treeimpl.classify(e)
+        after = updimpl.snapshot(root)
+        scen = {'op': 'read-then-update-on-one-loader', 'reads': reads, 'path': sub, 'hashes': hashes, 'manifests': sorted(pl.manifests)}
+        ctx.count('op:read-then-update-on-one-loader')
+        changed = sorted(p for p in set(before) | set(after) if before.get(p) != after.get(p))
+        ctx.case(json.dumps([scen, sorted(before)])[:5000], True, dict(scen, changed_files=changed, outcome=out if 'err' in out else 'ok'))
+        foreign = [p for p in changed if not os.path.basename(p).startswith('Manifest')]
+        if foreign:
+            ctx.fail('non-manifest-file-touched', scen, str(foreign))
+        if 'ok' in out:
+            check_preserved(ctx, scen, root, lines_before, sub)
+    finally:
+        trees.rmtree(root)
+
+
 def path_case(ctx, drv, judge_internal=False, label='update-entry-for-path'):
     """ManifestRecursiveLoader.update_entry_for_path(path, new_entry_type, hashes) + save_manifests: the single-path update of
     the library API, on a path listed once, several times (in one Manifest and across Manifests), listed but gone, or not
@@ -338,7 +394,7 @@ def run(ctx):
                 'failing part-way on a FIFO) on generated trees with prior Manifest states; around every operation a content+mtime '
                 'snapshot of every file. Oracle: only Manifest files change, nothing changes without a save or when the update fails, '
                 'DIST/IGNORE/TIMESTAMP entries, entry types and out-of-scope entries are preserved; correspondence with the model '
-                'for update+save (every written byte). Single-path updates (update_entry_for_path + save) on paths listed once / '
+                'for update+save (every written byte). Reads (verification, entry dicts, lookups) followed by a sub-directory update + save on ONE loader object. Single-path updates (update_entry_for_path + save) on paths listed once / '
                 'several times / listed but gone / not listed: same oracle, every line of every other path kept, the path itself exact.')
     ctx.assumptions = ['"nothing else on disk changes" is observed through snapshots of the scratch tree']
     drv = common.Driver()
@@ -349,6 +405,8 @@ def run(ctx):
             twin_case(ctx, drv)
         for i in range(500 if ctx.tier == 'quick' else 5000):
             path_case(ctx, drv)
+        for i in range(300 if ctx.tier == 'quick' else 3000):
+            same_loader_case(ctx, drv)
     finally:
         drv.close()
 
